@@ -688,7 +688,9 @@ def run(ctx):
         if not roots or len(takes) != len(roots):
             # a value produced by a std / third-party routine other than taking the single candidate (a cache lookup, a default, a first()):
             # definitely not "the unique match"; a value from a crate-local helper or an unknown source is left undecided
-            foreign = [r for r in roots if r not in takes and r[0] == "call" and not (r[1].startswith("blots_core::") or r[1].startswith("<blots_core"))]
+            # (an element bound by a slice pattern over the candidate list - `match list.as_slice() { [unit] => .. }` - is an element of
+            # that list; how many elements the pattern admits is not followed: undecided)
+            foreign = [r for r in roots if r not in takes and r[0] == "call" and not (r[1].startswith("blots_core::") or r[1].startswith("<blots_core")) and not re.search(r"::(as_slice|as_mut_slice|deref|as_ref)$", r[1])]
             ctx.inst("C17.R8", "resolve_unit#ok[%d]" % i, False if foreign else None,
                      "Ok(..) carries %s: not the single element taken from a candidate list%s" % ([r[:2] for r in roots], " (the answer does not come from the table scan)" if foreign else ""), ru.loc(b_))
             continue
